@@ -329,8 +329,7 @@ class Runner:
 
     def drop_own(dest, ve):
       # F79 guard: an existing child of list `dest` is not offered as an insertion into `dest`
-      if ve[0] == 'ref' and not cx['unsafe'] and ve[1].sym_parent is dest:
-        return ('atom', None)
+      # (F79 is repaired: elements of a list may be offered as insertions into it)
       return ve
 
     def vs(field):
